@@ -296,9 +296,18 @@ def _main(argv=None) -> int:
                 ctx.issue("diff", f"implementation-raised:{type(e).__name__}@{Path(inner.filename).name}:{inner.name}",
                           f"{e!r} raised in {inner.filename}:{inner.lineno} ({inner.name}) during the check; the check stopped here",
                           {"traceback": traceback.format_exception(type(e), e, e.__traceback__)[-12:]})
-            else:  # a crash of the machinery itself is not a verdict
+            else:
+                # the machinery itself stopped while digesting what the implementation returned (a result of an unexpected
+                # shape or type: on the unchanged tree, seeds 0..9 of both tiers, it does not): the run is incomplete, so the
+                # property is not shown to hold — reported like a broken correspondence (no-failing-input-found), with the
+                # traceback as the replay; VERIF_STRICT_INTERNAL=1 restores the old behaviour (exit 2) for debugging
                 print(f"[{prop}] INTERNAL ERROR in check machinery: {e!r}")
-                return 2
+                if os.environ.get("VERIF_STRICT_INTERNAL") == "1":
+                    return 2
+                ctx.issue("diff", f"check-stopped:{type(e).__name__}@{Path(inner.filename).name if inner else '?'}:{inner.name if inner else '?'}",
+                          f"{e!r} raised in the check's own code at {inner.filename if inner else '?'}:{inner.lineno if inner else '?'} while "
+                          f"processing the implementation's results; the check stopped here",
+                          {"traceback": traceback.format_exception(type(e), e, e.__traceback__)[-12:]})
 
     # ---------------- verdict
     known = load_known()
